@@ -1,6 +1,7 @@
 package main
 
 import (
+	"crypto/sha1"
 	"encoding/json"
 	"fmt"
 	"go/types"
@@ -494,15 +495,18 @@ func (w *World) intrinsic(t *Thread, f *Frame, fnv FuncV, args []Val, c *ssa.Cal
 		case PStr:
 			var np []interface{}
 			for _, p := range s.parts {
-				if cs, ok := p.(string); ok {
-					np = append(np, strings.ToLower(cs))
-				} else {
+				switch x := p.(type) {
+				case string:
+					np = append(np, strings.ToLower(x))
+				case Sym:
+					np = append(np, lowSym{x})
+				default:
 					np = append(np, p)
 				}
 			}
 			return PStr{np}, false
 		case Sym:
-			return symS("(str.to_lower " + s.t + ")"), false
+			return PStr{[]interface{}{lowSym{s}}}, false
 		}
 	case "strings.Contains":
 		return w.strContains(args[0], args[1]), false
@@ -887,26 +891,7 @@ func (w *World) format(t *Thread, fmtS string, args []Val) (Val, []IfaceV) {
 		}
 		return s, wrapped
 	}
-	if anySym {
-		// string theory mode: build a str.++ term (opaque numbers become fresh strings)
-		var ts []string
-		for _, p := range parts {
-			switch x := p.(type) {
-			case string:
-				ts = append(ts, smtStr(x))
-			case Sym:
-				ts = append(ts, x.t)
-			case opaqueNum:
-				n := w.fresh("numstr", "String")
-				w.s.send("(assert (str.in_re " + n + " (re.++ (re.opt (str.to_re \"-\")) (re.range \"0\" \"9\") (re.* (re.union (re.range \"0\" \"9\") (str.to_re \".\") (str.to_re \"h\") (str.to_re \"m\") (str.to_re \"s\") (str.to_re \"n\") (str.to_re \"\\u{b5}\"))))))")
-				ts = append(ts, n)
-			}
-		}
-		if len(ts) == 1 {
-			return symS(ts[0]), wrapped
-		}
-		return symS("(str.++ " + strings.Join(ts, " ") + ")"), wrapped
-	}
+	_ = anySym
 	return PStr{parts}, wrapped
 }
 
@@ -941,43 +926,168 @@ func (w *World) strTerm(v Val) string {
 func (w *World) strContains(hay, needle Val) Val {
 	pat, ok := needle.(string)
 	if !ok {
-		return symB("(str.contains " + w.strTerm(hay) + " " + w.strTerm(needle) + ")")
+		panic(engErr("strings.Contains with a symbolic pattern"))
 	}
 	switch h := hay.(type) {
 	case string:
 		return strings.Contains(h, pat)
 	case Sym:
-		return symB("(str.contains " + h.t + " " + smtStr(pat) + ")")
+		panic(engErr("case-sensitive strings.Contains on symbolic text"))
 	case PStr:
-		// inside a single concrete piece, or across adjacent concrete pieces
-		run := ""
-		for _, p := range h.parts {
-			if cs, ok := p.(string); ok {
-				run += cs
-			} else {
-				if strings.Contains(run, pat) {
-					return true
-				}
-				run = ""
-			}
-		}
-		if strings.Contains(run, pat) {
-			return true
-		}
-		// could an occurrence overlap an opaque number/duration piece D = -?[0-9][0-9.hmsµn]* ?
-		// (i) covering D[0] needs a digit or '-' in the pattern; (ii) starting inside D needs the
-		// pattern to begin with the tail of a unit suffix (s, ms, ns, µs).
-		if strings.ContainsAny(pat, "0123456789-") {
-			panic(engErr("undecided strings.Contains over a formatted symbolic number: " + pat))
-		}
-		for _, sfx := range []string{"s", "ms", "ns", "µs", "h", "m"} {
-			if strings.HasPrefix(pat, sfx) {
-				panic(engErr("undecided strings.Contains over a formatted symbolic duration: " + pat))
-			}
-		}
-		return false
+		return w.pstrContains(h, pat)
 	}
 	panic(engErr(fmt.Sprintf("strings.Contains on %T", hay)))
+}
+
+// lowSym is a symbolic string piece under strings.ToLower.
+type lowSym struct{ s Sym }
+
+var numAlphabet = "0123456789.hmsµn-"
+
+// pstrContains decides Contains(lower(T), pat) for a text T made of concrete pieces, free
+// symbolic strings x (lowered) and formatted symbolic numbers/durations. Encoding: one Bool
+// has(x,pat) per free string and pattern ("lower(x) contains pat"); the result is the disjunction
+// of the concrete hits and the has atoms, exact whenever no occurrence can straddle a piece
+// boundary; where a straddling occurrence is syntactically possible a fresh unconstrained Bool is
+// added (over-approximation: unsat stays sound, sat must replay).
+func (w *World) pstrContains(h PStr, pat string) Val {
+	var res Val = false
+	run := ""
+	parts := h.parts
+	flush := func() {
+		if strings.Contains(run, pat) {
+			res = true
+		}
+		run = ""
+	}
+	for i, p := range parts {
+		switch x := p.(type) {
+		case string:
+			run += x
+		case opaqueNum:
+			flush()
+			// (i) covering the first char needs a digit or '-' in the pattern; (ii) starting inside
+			// needs the pattern to begin with the tail of a unit suffix.
+			if strings.ContainsAny(pat, "0123456789-") {
+				panic(engErr("undecided strings.Contains over a formatted symbolic number: " + pat))
+			}
+			for _, sfx := range []string{"s", "ms", "ns", "µs", "h", "m"} {
+				if strings.HasPrefix(pat, sfx) {
+					panic(engErr("undecided strings.Contains over a formatted symbolic duration: " + pat))
+				}
+			}
+		case lowSym:
+			flush()
+			res = or(res, w.hasAtom(x.s, pat))
+			// straddling occurrences across the boundaries of x
+			left, right := "", ""
+			leftOpen, rightOpen := false, false
+			if i > 0 {
+				if ls, ok := parts[i-1].(string); ok {
+					left = ls
+				} else {
+					leftOpen = true
+				}
+			}
+			if i+1 < len(parts) {
+				if rs, ok := parts[i+1].(string); ok {
+					right = rs
+				} else {
+					rightOpen = true
+				}
+			}
+			possible := leftOpen || rightOpen
+			for k := 1; k < len(pat) && !possible; k++ {
+				if strings.HasSuffix(left, pat[:k]) || strings.HasPrefix(right, pat[k:]) {
+					possible = true
+				}
+			}
+			if possible {
+				// one atom per (text, piece, pattern): repeated evaluations of the same text agree
+				k := fmt.Sprintf("straddle_%x", sha1.Sum([]byte(pstrKey(h)+"#"+fmt.Sprint(i)+"#"+pat)))[:26]
+				if !w.declared[k] {
+					w.declared[k] = true
+					w.s.send("(declare-const " + k + " Bool)")
+				}
+				res = or(res, symB(k))
+			}
+		case Sym:
+			panic(engErr("case-sensitive strings.Contains on symbolic text"))
+		default:
+			panic(engErr(fmt.Sprintf("pstr piece %T", p)))
+		}
+	}
+	flush()
+	return res
+}
+
+func pstrKey(h PStr) string {
+	var sb strings.Builder
+	for _, p := range h.parts {
+		switch x := p.(type) {
+		case string:
+			sb.WriteString("c:" + x + "|")
+		case lowSym:
+			sb.WriteString("l:" + x.s.t + "|")
+		case Sym:
+			sb.WriteString("s:" + x.t + "|")
+		case opaqueNum:
+			sb.WriteString("n:" + x.t + "|")
+		}
+	}
+	return sb.String()
+}
+
+func hexName(s string) string { return fmt.Sprintf("%x", s) }
+
+// hasAtom returns the Bool "lower(x) contains pat", with the axioms tying the atoms of one
+// variable together (substring closure over the patterns seen, agreement with equalities).
+func (w *World) hasAtom(x Sym, pat string) Val {
+	vi := w.strVars[x.t]
+	if vi == nil {
+		vi = &strVarInfo{pats: map[string]string{}, consts: map[string]bool{}}
+		w.strVars[x.t] = vi
+	}
+	if n, ok := vi.pats[pat]; ok {
+		return symB(n)
+	}
+	n := "has_" + sanRe.ReplaceAllString(x.t, "_") + "_" + hexName(pat)
+	w.s.send("(declare-const " + n + " Bool)")
+	w.inputs = append(w.inputs, n)
+	for q, qn := range vi.pats {
+		if strings.Contains(q, pat) {
+			w.s.send("(assert (=> " + qn + " " + n + "))")
+		}
+		if strings.Contains(pat, q) {
+			w.s.send("(assert (=> " + n + " " + qn + "))")
+		}
+	}
+	for c := range vi.consts {
+		w.s.send(fmt.Sprintf("(assert (=> (= %s %s) (= %s %v)))", x.t, smtStr(c), n, strings.Contains(strings.ToLower(c), pat)))
+	}
+	vi.pats[pat] = n
+	return symB(n)
+}
+
+// noteStrConst records that x is compared with the constant c (keeps has-atoms consistent with it).
+func (w *World) noteStrConst(x Sym, c string) {
+	vi := w.strVars[x.t]
+	if vi == nil {
+		vi = &strVarInfo{pats: map[string]string{}, consts: map[string]bool{}}
+		w.strVars[x.t] = vi
+	}
+	if vi.consts[c] {
+		return
+	}
+	vi.consts[c] = true
+	for p, n := range vi.pats {
+		w.s.send(fmt.Sprintf("(assert (=> (= %s %s) (= %s %v)))", x.t, smtStr(c), n, strings.Contains(strings.ToLower(c), p)))
+	}
+}
+
+type strVarInfo struct {
+	pats   map[string]string
+	consts map[string]bool
 }
 
 // ---------- math.Pow ----------
